@@ -82,18 +82,18 @@ def rule_draw_order(ctx, crate, rule="R-DRAW-ORDER"):
     ctx.check(not bad_rets, rule, "erase-before-return", b.name, K.fn_loc(b),
               "every normal Ok return (outside the panicking() early exit) passes move_cursor_up(prev rows)",
               "a successful return is reachable without repositioning over the previous frame (return blocks %s)" % bad_rets, cfg)
-    # (1b) clear_line: in a loop whose bound slices to the previous row count, on the non-move_cursor branch
+    # (1b) clear_line: in a loop whose exit test depends on the previous row count
     for c in clears:
         inloop = b.in_loop(c.bb)
-        # loop bound: the iterator's range end
         bound_ok = False
-        for sb, t, pl, d in K.discr_switches(b):
-            if c.bb in b.edge_region((sb, [tb for v, tb in t["targets"] if v == 1][0] if any(v == 1 for v, tb in t["targets"]) else t["otherwise"])):
-                sl = b.slice(pl, at=sb)
-                if p in sl.locals:
-                    bound_ok = True
+        for sb, t in b.switches():
+            if not (sb in b.reach_after(c.bb) and c.bb in b.reach_after(sb)):
+                continue
+            exits = [x for x in b.succ(sb) if c.bb not in b.reach([x])]
+            if exits and p in b.slice(t["op"], at=sb).locals:
+                bound_ok = True
         ctx.check(inloop and bound_ok, rule, "clear-loop", b.name, c.loc(),
-                  "clear_line is inside a loop whose iterator slices to the previous row count",
+                  "clear_line is inside a loop whose exit test slices to the previous row count",
                   "clear_line is %s" % ("not in a loop" if not inloop else "in a loop not bounded by the previous row count"), cfg)
     # (2) every paint call (write of a line) is preceded by a reposition: up_blocks dominate it collectively
     for c in writes:
@@ -343,7 +343,7 @@ def rule_force_bypass(ctx, crate, rule="R-FORCE-BYPASS"):
             ctx.check(is_const(op, True), rule, "multi-forced-const", cb.name, "%s:%d" % (cb.file, s.get("line", 0)),
                       "Drawable::Multi built outside drawable() is forced (const true)",
                       "Drawable::Multi built with a non-constant/false force flag outside drawable()", cfg)
-    ctx.floor(rule, nm, 2, cfg, "Drawable::Multi constructions")
+    ctx.floor(rule, nm, 1, cfg, "Drawable::Multi constructions")
     # Drawable::draw forwards field force_draw to MultiState::draw
     d = K.find_one(ctx, crate, rule, r"draw_target::Drawable::<'_>::draw")
     if d:
@@ -364,9 +364,8 @@ def rule_force_bypass(ctx, crate, rule="R-FORCE-BYPASS"):
         for c in cs:
             sl = f.slice_args(c, [1])
             ops = {a[1] for a in sl.atoms if a[0] == "binop"} | {a[1] for a in sl.atoms if a[0] == "unop"}
-            ok = p is not None and p in sl.params() and ops <= {"BitOr", "Gt", "Lt", "Ne", "Eq", "Ge", "Le"}
-            # only monotone combination with the parameter: the parameter itself must reach through BitOr/use only
-            ok = ok and param_reaches_monotone(f, c.args[1], p)
+            isc, ze = cond_param(f, p) if p is not None else (None, [])
+            ok = p is not None and implied_true(f, c.args[1], c.bb, isc, ze)
             ctx.check(ok, rule, "forwards-force", f.name, c.loc(),
                       "drawable() receives the function's own force flag, only ever OR-ed with other conditions",
                       "the force flag passed to drawable() does not monotonically include the caller's force_draw", cfg)
@@ -697,7 +696,8 @@ def rule_finished_draws_forced(ctx, crate, rule="R-FINISHED-DRAWS-FORCED"):
     forced = True
     for c in cs:
         sl = b.slice_args(c, [1])
-        forced = forced and sl.has_call(r"state::ProgressState::is_finished") and (("binop", "BitOr") in sl.atoms) and not (("unop", "Not") in sl.atoms)
+        isc, ze = cond_call(b, r"state::ProgressState::is_finished")
+        forced = forced and sl.has_call(r"state::ProgressState::is_finished") and implied_true(b, c.args[1], c.bb, isc, ze)
     # alternative: Drop's finished path redraws
     redraws = False
     for sb, t in d.switches():
@@ -707,3 +707,95 @@ def rule_finished_draws_forced(ctx, crate, rule="R-FINISHED-DRAWS-FORCED"):
     ctx.check(forced or redraws, rule, "finished-bar-draws", b.name, cs[0].loc() if cs else K.fn_loc(b),
               "draws of a finished bar are always forced (is_finished() is OR-ed into the flag): the stored draw state of a finished member is what is on screen",
               "a finished bar can be redrawn unforced: a rate-limited update stores lines that are never painted, and dropping the bar then keeps rows that are not on screen", cfg)
+
+
+# ---- "condition true => flag true" evaluator (handles `flag |= c`, `flag || c`, copies) -----------------
+
+def live_defs(b, local, at, at_idx=None):
+    """Whole-local definitions that may reach the use at (block `at`, statement index `at_idx`; None = the terminator).
+    A later whole-local def on every path kills earlier ones (including inside the use's own block)."""
+    if at_idx is None:
+        at_idx = 1 << 30
+    ds = [d for d in b.defs().get(local, ()) if d["kind"] in ("param", "assign", "call") and not d.get("path")]
+    same = [d for d in ds if d.get("bb", -1) == at and d["kind"] == "assign" and d.get("idx", 0) < at_idx]
+    if same:
+        return [max(same, key=lambda d: d.get("idx", 0))]
+    out = []
+    def_blocks = {d.get("bb", -1) for d in ds}
+    for d in ds:
+        dbb = d.get("bb", -1)
+        if dbb == at:
+            # a def later in the same block (or the block's own call): reaches only around a loop
+            if at in b.reach_after(at):
+                out.append(d)
+            continue
+        killers = [k for k in def_blocks if k >= 0 and k != dbb and k != at]
+        start = [0] if dbb < 0 else b.succ(dbb)
+        if dbb < 0 and at == 0:
+            out.append(d)
+        elif at in b.reach(start, avoid=killers):
+            out.append(d)
+    return out
+
+
+def implied_true(b, op, at, is_cond_local, zero_edges, depth=0, visiting=None, at_idx=None):
+    """Under the assumption that the condition holds, operand `op` (read at block `at`, statement `at_idx`) is true.
+    is_cond_local(local, def) says whether a def *is* the condition value; zero_edges are the edges taken when the
+    condition is false (defs only reachable through them are irrelevant)."""
+    visiting = visiting or set()
+    if is_const(op, True):
+        return True
+    l = operand_local(op)
+    if l is None or (isinstance(op, dict) and op.get("place", {}).get("p")):
+        return False
+    key = (l, at, at_idx)
+    if key in visiting:
+        return True
+    if depth > 8:
+        return False
+    visiting = visiting | {key}
+    ds = live_defs(b, l, at, at_idx)
+    if not ds:
+        return False
+    for d in ds:
+        dbb = d.get("bb", -1)
+        if dbb >= 0 and any(b.edge_dominates(e, dbb) for e in zero_edges):
+            continue
+        if is_cond_local(l, d):
+            continue
+        if d["kind"] == "assign":
+            rv = d["rv"]
+            if rv["k"] == "use":
+                if not implied_true(b, rv["op"], dbb, is_cond_local, zero_edges, depth + 1, visiting, d.get("idx", 0)):
+                    return False
+            elif rv["k"] == "bin" and rv["op"] == "BitOr":
+                if not (implied_true(b, rv["a"], dbb, is_cond_local, zero_edges, depth + 1, visiting, d.get("idx", 0)) or
+                        implied_true(b, rv["b"], dbb, is_cond_local, zero_edges, depth + 1, visiting, d.get("idx", 0))):
+                    return False
+            else:
+                return False
+        else:
+            return False
+    return True
+
+
+def cond_param(b, p):
+    zero = []
+    for sb, t in b.switches():
+        sl = b.slice(t["op"], at=sb)
+        if sl.params() == {p} and not sl.calls and not (("unop", "Not") in sl.atoms):
+            z = [tb for v, tb in t["targets"] if v == 0]
+            if z:
+                zero.append((sb, z[0]))
+    return (lambda l, d: d["kind"] == "param" and d.get("param") == p), zero
+
+
+def cond_call(b, pat):
+    zero = []
+    for sb, t in b.switches():
+        sl = b.slice(t["op"], at=sb, through_calls=False)
+        if sl.has_call(pat) and not (("unop", "Not") in sl.atoms):
+            z = [tb for v, tb in t["targets"] if v == 0]
+            if z:
+                zero.append((sb, z[0]))
+    return (lambda l, d: d["kind"] == "call" and d["call"].matches(pat)), zero
